@@ -1,0 +1,15 @@
+//go:build verif
+
+// Contracts for package donotsendfirstblocks (property C12). Comment-only: read by /verif/bin/gsv, never compiled into the package.
+// Clause syntax: /verif/engine/contracts.go; method: /verif/DESIGN.md.
+
+package donotsendfirstblocks
+
+//@ onlyfor C12
+
+//@ func github.com/ipld/go-ipld-prime/datamodel.Node.AsInt
+//@   assumed
+//@   modifies nothing
+//@ func DecodeDoNotSendFirstBlocks
+//@   lenient
+//@   modifies alloc
